@@ -72,7 +72,9 @@ def run_check(prop: str, tier: str, seed: int) -> int:
     if not violations and (tie_broken or drift):
         broken = [e.get("theorem") for e in st.errors] + st.extract.get("problems", []) + drift
         budget = 2000 if tier == "quick" else 20000
-        scases = mod.search(seed, broken, budget) if hasattr(mod, "search") else mod.generate(seed + 104729, tier)[:budget]
+        if not tie_broken:              # drift only: a lighter extension (the proofs hold for the pinned constants)
+            budget = 600 if tier == "quick" else 6000
+        scases = (mod.search(seed, broken, budget) if hasattr(mod, "search") else mod.generate(seed + 104729, tier))[:budget]
         srecs = []
         for env, group in mod.group_by_env(scases) if hasattr(mod, "group_by_env") else [({}, scases)]:
             srecs += core.evaluate(mod, group, env=env, timeout_case=timeout_case)
@@ -222,9 +224,16 @@ def main():
     ap.add_argument("--replay")
     a = ap.parse_args()
     seed = int(os.environ.get("VERIF_SEED", "0"))
-    if a.replay:
-        sys.exit(run_replay(a.prop, a.replay))
-    sys.exit(run_check(a.prop, a.tier, seed))
+    try:
+        rc = run_replay(a.prop, a.replay) if a.replay else run_check(a.prop, a.tier, seed)
+    except SystemExit:
+        raise
+    except BaseException:  # noqa  - a defect of the machinery is never a verdict: exit 2, not 1
+        import traceback
+        traceback.print_exc()
+        log(f"[{a.prop}] INFRA: the check itself failed (see traceback)")
+        rc = 2
+    sys.exit(rc)
 
 
 if __name__ == "__main__":
